@@ -269,7 +269,12 @@ _COMPARISON_OP_TO_BINARY_OP_MAP = {"==": BinaryOpType.EQUAL,
 
 class TypeCastDropper(IdentityMapper):
     def map_type_cast(self, expr: TypeCast) -> Any:
-        return self.rec(expr.inner_expr)
+        inner = self.rec(expr.inner_expr)
+        if isinstance(inner, (bool, np.bool_)):
+            # A bare bool is not an arithmetic expression (it cannot be an
+            # operand of a sum or product): fold the cast into the constant.
+            return expr.dtype.type(inner)
+        return inner
 
 
 def index_lambda_to_high_level_op(expr: IndexLambda) -> HighLevelOp:
